@@ -18,6 +18,7 @@ type OblPart struct {
 	NegGoal Term // satisfiable ⇒ obligation fails
 	NAssume int
 	Where   string
+	Cex     []CexTerm // terms whose model values describe a counterexample
 }
 
 type Oblig struct {
@@ -36,6 +37,7 @@ type Oblig struct {
 	Model  string
 	Output string
 	FailedPart int
+	CexVals    map[string]string
 }
 
 type Exec struct {
@@ -65,6 +67,7 @@ type Exec struct {
 	coverReach  Term
 	noPanicAll  bool
 	lockObls    bool
+	cexBase     []CexTerm
 }
 
 type frame struct {
@@ -151,24 +154,80 @@ func (x *Exec) scalarize(v Val) Val {
 		x.c.Note("interior pointer &(%s).%s abstracted by an uninterpreted function", typeKey(a.Obj), a.Path)
 		return Val{T: v.T, L: []Term{t}}
 	}
-	t := x.c.App("elemptr", SRef, a.SliceID, a.Index)
+	if a.Kind == addrArrIdx {
+		t := x.c.App("arrfieldptr_"+typeKey(a.Obj)+"_"+a.Path, SRef, a.Base, a.Index)
+		return Val{T: v.T, L: []Term{t}}
+	}
+	t := x.c.App("elemptr_"+a.Path, SRef, a.SliceID, a.Index)
 	return Val{T: v.T, L: []Term{t}}
 }
 
-func (x *Exec) load(st *State, a *Addr, reach Term) Val {
+func arrayOf(t types.Type) (*types.Array, bool) {
+	a, ok := t.Underlying().(*types.Array)
+	return a, ok
+}
+
+// arrSliceID: the backing store of a top-level array object is kept in the
+// slice-element heap under this identity.
+func (x *Exec) arrSliceID(arrT types.Type, ref Term) Term {
+	return x.c.App("arrslice_"+typeKey(arrT), SBV(64), ref)
+}
+
+// leafLoc describes where one leaf of an addressed value lives.
+type leafLoc struct {
+	key  string
+	srt  Sort
+	idx1 Term
+	idx2 *Term
+}
+
+func (x *Exec) leafLocs(a *Addr) ([]Leaf, []leafLoc, bool) {
 	sh := shape(a.FT)
-	out := Val{T: a.FT, L: make([]Term, len(sh))}
-	for i, l := range sh {
-		switch a.Kind {
-		case addrObj:
-			key := objKey(a.Obj, joinPath(a.Path, l.Path))
-			arr := x.heapGet(st, key, SArr(SRef, l.Sort))
-			out.L[i] = x.c.Define("ld", Select(arr, a.Base))
-		case addrElem:
-			key := sliceKey(a.FT, l.Path)
-			arr := x.heapGet(st, key, SArr(SBV(64), SArr(SBV(64), l.Sort)))
-			out.L[i] = x.c.Define("ld", Select(Select(arr, a.SliceID), a.Index))
+	locs := make([]leafLoc, len(sh))
+	switch a.Kind {
+	case addrObj:
+		if arr, ok := arrayOf(a.Obj); ok && a.Path == "" {
+			// whole top-level array object: lives in the slice heap
+			es := shape(arr.Elem())
+			if len(es) != 1 || len(sh) != 1 || !sh[0].Sort.IsArr() {
+				return sh, nil, false
+			}
+			id := x.arrSliceID(a.Obj, a.Base)
+			locs[0] = leafLoc{key: sliceKey(arr.Elem(), es[0].Path), srt: SArr(SBV(64), sh[0].Sort), idx1: id}
+			return sh, locs, true
 		}
+		for i, l := range sh {
+			locs[i] = leafLoc{key: objKey(a.Obj, joinPath(a.Path, l.Path)), srt: SArr(SRef, l.Sort), idx1: a.Base}
+		}
+	case addrElem:
+		for i, l := range sh {
+			idx := a.Index
+			locs[i] = leafLoc{key: sliceKey(a.ElemT, joinPath(a.Path, l.Path)), srt: SArr(SBV(64), SArr(SBV(64), l.Sort)), idx1: a.SliceID, idx2: &idx}
+		}
+	case addrArrIdx:
+		if len(sh) != 1 {
+			return sh, nil, false
+		}
+		idx := a.Index
+		locs[0] = leafLoc{key: objKey(a.Obj, a.Path), srt: SArr(SRef, SArr(SBV(64), sh[0].Sort)), idx1: a.Base, idx2: &idx}
+	}
+	return sh, locs, true
+}
+
+func (x *Exec) load(st *State, a *Addr, reach Term) Val {
+	sh, locs, ok := x.leafLocs(a)
+	out := Val{T: a.FT, L: make([]Term, len(sh))}
+	if !ok {
+		x.c.Note("load of %s through an unsupported address shape yields an arbitrary value", typeKey(a.FT))
+		return freshVal(x.c, "ldopaque", a.FT)
+	}
+	for i, l := range sh {
+		arr := x.heapGet(st, locs[i].key, locs[i].srt)
+		t := Select(arr, locs[i].idx1)
+		if locs[i].idx2 != nil {
+			t = Select(t, *locs[i].idx2)
+		}
+		out.L[i] = x.c.Define("ld", t)
 		if l.Sort == SRef {
 			x.c.Assume(Imp(reach, Op("bvult", SBool, out.L[i], st.ctr)))
 		}
@@ -177,30 +236,43 @@ func (x *Exec) load(st *State, a *Addr, reach Term) Val {
 }
 
 func (x *Exec) store(st *State, a *Addr, v Val) {
-	sh := shape(a.FT)
+	sh, locs, ok := x.leafLocs(a)
 	v = x.scalarize(x.materialize(v, a.FT))
+	if !ok {
+		x.c.Note("store of %s through an unsupported address shape is dropped (target havocked on read)", typeKey(a.FT))
+		return
+	}
 	if len(v.L) != len(sh) {
 		panic(fmt.Sprintf("store: shape mismatch %v (%d) into %v (%d)", v.T, len(v.L), a.FT, len(sh)))
 	}
-	for i, l := range sh {
-		switch a.Kind {
-		case addrObj:
-			key := objKey(a.Obj, joinPath(a.Path, l.Path))
-			arr := x.heapGet(st, key, SArr(SRef, l.Sort))
-			x.heapSet(st, key, Store(arr, a.Base, v.L[i]))
-		case addrElem:
-			key := sliceKey(a.FT, l.Path)
-			arr := x.heapGet(st, key, SArr(SBV(64), SArr(SBV(64), l.Sort)))
-			x.heapSet(st, key, Store(arr, a.SliceID, Store(Select(arr, a.SliceID), a.Index, v.L[i])))
+	for i := range sh {
+		arr := x.heapGet(st, locs[i].key, locs[i].srt)
+		if locs[i].idx2 != nil {
+			x.heapSet(st, locs[i].key, Store(arr, locs[i].idx1, Store(Select(arr, locs[i].idx1), *locs[i].idx2, v.L[i])))
+		} else {
+			x.heapSet(st, locs[i].key, Store(arr, locs[i].idx1, v.L[i]))
 		}
 	}
 }
 
-// alloc creates a fresh heap object of type t initialised to init (or zero).
+// alloc creates a fresh heap object of type t initialised to zero.
 func (x *Exec) alloc(st *State, t types.Type, reach Term) Term {
 	ref := st.ctr
 	st.ctr = x.c.Define("ctr", Op("bvadd", SRef, st.ctr, BVLit(1, 32)))
 	x.c.Assume(Op("bvult", SBool, ref, st.ctr)) // no wrap of the frontier
+	if arr, ok := arrayOf(t); ok {
+		// zero every element leaf in the slice heap
+		id := x.arrSliceID(t, ref)
+		x.c.Assume(Not(Eq(id, BVLit(0, 64))))
+		for _, l := range shape(arr.Elem()) {
+			key := sliceKey(arr.Elem(), l.Path)
+			srt := SArr(SBV(64), SArr(SBV(64), l.Sort))
+			h := x.heapGet(st, key, srt)
+			z := zeroLeaf(x.c, Leaf{"", SArr(SBV(64), l.Sort), nil})
+			x.heapSet(st, key, Store(h, id, z))
+		}
+		return ref
+	}
 	a := &Addr{Kind: addrObj, Base: ref, Obj: t, Path: "", FT: t}
 	x.store(st, a, zeroVal(x.c, t))
 	return ref
